@@ -23,8 +23,14 @@ SetEnabled(n, b) ==
 ObjSetEnabled(n, b) ==
     /\ chain' = [i \in 1..Len(chain) |-> IF chain[i].name = n THEN [chain[i] EXCEPT !.enabled = b] ELSE chain[i]]
     /\ en' = [en EXCEPT ![n] = b] /\ res' = "ok"
+\* an installed, enabled plugin removes itself from the registry from inside its own pre action (a one-shot plugin).  The walk that is under
+\* way still reaches every plugin installed before it - they are installed, so they see this test's pre action - and the post walk, which
+\* starts afterwards, runs over the chain without it.  (A plugin that is not installed or is disabled is never asked: nothing happens.)
+PreRemove(n) ==
+    /\ chain' = IF \E i \in 1..Len(chain) : chain[i].name = n /\ chain[i].enabled THEN SelectSeq(chain, LAMBDA p : p.name # n) ELSE chain
+    /\ res' = "ok" /\ UNCHANGED en
 Next == \E n \in Names : \/ Install(n) \/ Remove(n) \/ SetEnabled(n, TRUE) \/ SetEnabled(n, FALSE)
-                         \/ ObjSetEnabled(n, TRUE) \/ ObjSetEnabled(n, FALSE)
+                         \/ ObjSetEnabled(n, TRUE) \/ ObjSetEnabled(n, FALSE) \/ PreRemove(n)
 Spec == Init /\ [][Next]_vars
 
 EnabledNames(c) == [i \in 1..Len(SelectSeq(c, LAMBDA p : p.enabled)) |-> SelectSeq(c, LAMBDA p : p.enabled)[i].name]
